@@ -31,6 +31,7 @@ import (
 // cliEnd is the carrier as the tunnel client sees it.
 type cliEnd struct {
 	ctx    context.Context
+	cancel context.CancelFunc // gRPC cancels a client stream's context before Recv reports its end
 	in     *inbox[*tunnelpb.ServerToClient]
 	mu     sync.Mutex
 	out    []*tunnelpb.ClientToServer
@@ -80,6 +81,14 @@ func (c *cliEnd) isClosed() bool {
 	defer c.mu.Unlock()
 	return c.closed
 }
+// endCarrier ends the carrier as gRPC does: the stream's context is done before Recv returns the error.
+func (c *cliEnd) endCarrier(err error) {
+	if c.cancel != nil {
+		c.cancel()
+	}
+	c.in.end(err)
+}
+
 func (c *cliEnd) tearDown() {
 	c.mu.Lock()
 	c.closed = true
@@ -121,6 +130,7 @@ type cRun struct {
 	reqBuf map[int64][]byte
 	reqTot map[int64]int
 	cancelAll context.CancelFunc
+	rpcBase   context.Context
 	onStep    func()
 	onEmit    func([]*tunnelpb.ClientToServer)
 	lastObs   string
@@ -235,6 +245,7 @@ func (r *cRun) observe() string {
 }
 
 func (r *cRun) step(op string, do func()) {
+	beginOp(op)
 	do()
 	r.ops.add(op, r.observe())
 }
@@ -249,7 +260,9 @@ type cCfg struct {
 func startC(t *testing.T, ops *opsWriter, cfg cCfg) *cRun {
 	ctx, cancel := context.WithCancel(context.Background())
 	r := &cRun{t: t, ops: ops, reqBuf: map[int64][]byte{}, reqTot: map[int64]int{}, cancelAll: cancel}
-	r.end = &cliEnd{ctx: ctx, in: newInbox[*tunnelpb.ServerToClient]()}
+	cctx, ccancel := context.WithCancel(context.Background())
+	r.rpcBase = ctx // the callers' contexts do not depend on the carrier's
+	r.end = &cliEnd{ctx: cctx, cancel: ccancel, in: newInbox[*tunnelpb.ServerToClient]()}
 	created := make(chan grpctunnel.VerifChannel, 1)
 	go func() {
 		created <- grpctunnel.VerifNewTunnelChannel(r.end, metadata.MD{}, cfg.settings, cfg.disable, r.end.tearDown)
@@ -279,7 +292,7 @@ func startC(t *testing.T, ops *opsWriter, cfg cCfg) *cRun {
 }
 
 func (r *cRun) teardown() {
-	r.end.in.end(io.EOF)
+	r.end.endCarrier(io.EOF)
 	r.cancelAll()
 	synctest.Wait()
 	for _, p := range r.rpcs {
@@ -355,7 +368,7 @@ func (r *cRun) newRPCEarly(shape string, md metadata.MD, timeout time.Duration, 
 	cs := shape == "CS" || shape == "BD"
 	ss := shape == "SS" || shape == "BD"
 	op := fmt.Sprintf("c.new shape=%s m=%s md=%s", shape, hx([]byte(method)), fmtMD(md))
-	base := r.end.ctx
+	base := r.rpcBase
 	if md != nil {
 		base = metadata.NewOutgoingContext(base, md)
 	}
@@ -537,7 +550,7 @@ func runCScenario(t *testing.T, ops *opsWriter, rng *rand.Rand, steps int, hosti
 				case 2:
 					r.frameSettings(-1, 65536, []int32{2, 7}) // nothing in common
 				case 3:
-					r.step("c.eof", func() { r.end.in.end(io.EOF); synctest.Wait(); r.onStep() })
+					r.step("c.eof", func() { r.end.endCarrier(io.EOF); synctest.Wait(); r.onStep() })
 				default:
 					r.frameSettings(-1, 65536, [][]int32{{}, {7, 1, 1, 0}, {0}, {1}, {1, 0, 1}}[rng.Intn(5)])
 				}
@@ -747,9 +760,9 @@ func runCScenario(t *testing.T, ops *opsWriter, rng *rand.Rand, steps int, hosti
 					case 0:
 						r.step("c.close", func() { r.ch.Channel().Close() })
 					case 1:
-						r.step("c.eof", func() { r.end.in.end(io.EOF) })
+						r.step("c.eof", func() { r.end.endCarrier(io.EOF) })
 					default:
-						r.step("c.fail", func() { r.end.in.end(errors.New("carrier broke")) })
+						r.step("c.fail", func() { r.end.endCarrier(errors.New("carrier broke")) })
 					}
 				}
 			}
